@@ -112,9 +112,7 @@ PROPS = {
         assumptions=["bytes are modelled as naturals < 256 (hypothesis IsBytes of the theorems)"],
     ),
     "C01": dict(
-        module="FastQr.Props.C01", level="proof", key=key_build, partial=True,
-        missing=["composition C01_statement (stage lemmas c-g of DESIGN.md §4 C01) is stated, not yet proved; "
-                 "the reference decoder is run on every generated symbol instead"],
+        module="FastQr.Props.C01", level="proof", key=key_build,
         rule="cases: public QRBuilder; every (version, level) cell with forced/automatic mode, mask and version, lengths "
              "{0,1,2,3, cap/2, cap-3..cap, first length of the version} and random, contents random / lowest / highest / pad "
              "look-alike; thorough = every (version, level, mask in 8+auto, mode in 3+auto). distinct = distinct (forced-option "
